@@ -1,7 +1,7 @@
 SPECIFICATION Spec
 CONSTANTS
   Chunks = 2
-  MaxVer = 3
+  MaxVer = 4
   Deviation = "inplace"
 INVARIANTS Inv_FileIsCompleteSnapshot
 PROPERTIES Act_ReloadEqualsLastSave
